@@ -291,23 +291,24 @@ func CheckStateResponse(
 			badSignature[i] = true
 			continue
 		}
-		if _, ok := eventsByID[e.EventID()]; !ok {
+		// A copy whose content hash did not match has been redacted on parsing:
+		// the intact copy, if there is one, stands for the event.
+		if prev, ok := eventsByID[e.EventID()]; !ok || (prev.Redacted() && !e.Redacted()) {
 			eventsByID[e.EventID()] = e
 		}
 	}
 
-	// Check whether the events are allowed by the auth rules.
-	failures := map[string]error{}
+	// Check whether the events are allowed by the auth rules. Again every copy
+	// is judged by what it says itself: a redacted copy that the rules refuse
+	// must not take the intact one with it.
+	notAllowed := make([]bool, len(allEvents))
 	for i, event := range allEvents {
 		if badSignature[i] {
 			continue
 		}
-		if _, checked := failures[event.EventID()]; checked {
-			continue
-		}
 		if err := checkAllowedByAuthEvents(event, eventsByID, missingAuth, userIDForSender); err != nil {
 			logrus.WithError(err).Warnf("Event %q is not allowed by its auth events", event.EventID())
-			failures[event.EventID()] = err
+			notAllowed[i] = true
 		}
 	}
 
@@ -316,10 +317,7 @@ func CheckStateResponse(
 	keep := func(events []PDU, offset int) []PDU {
 		kept := events[:0]
 		for i, event := range events {
-			if badSignature[offset+i] {
-				continue
-			}
-			if _, failed := failures[event.EventID()]; failed {
+			if badSignature[offset+i] || notAllowed[offset+i] {
 				continue
 			}
 			kept = append(kept, event)
